@@ -20,9 +20,9 @@ VARIABLES hash,     \* [Classes \ {0} -> Nat]: what the user's hash_fn returns f
           size, slots, count,
           iter,     \* [on, slot, limit, st, elem]; slot = -1 models the step back from slot 0 to SIZE_MAX
           op,       \* ghost: the last call with its arguments and reported results
-          vis, start \* ghost: classes shown by the user iterator since begin / classes present at begin
+          vis, start, dup \* ghost: classes shown by the user iterator since begin / present at begin / one shown twice
 
-rhvars == <<hash, alive, hasK, hasV, size, slots, count, iter, op, vis, start>>
+rhvars == <<hash, alive, hasK, hasV, size, slots, count, iter, op, vis, start, dup>>
 
 Empty == [h |-> 0, c |-> -1, p |-> -1, v |-> -1]           \* AWS_ZERO_STRUCT / calloc
 EmptySlots(sz) == [i \in 0..(sz - 1) |-> Empty]
@@ -91,7 +91,7 @@ DK(b) == IF hasK THEN b ELSE EmptyBag
 DV(b) == IF hasV THEN b ELSE EmptyBag
 Dead == /\ alive' = FALSE /\ hasK' = FALSE /\ hasV' = FALSE
         /\ size' = 2 /\ slots' = EmptySlots(2) /\ count' = 0
-EndIter == iter' = NoIt /\ vis' = <<>> /\ start' = {}
+EndIter == iter' = NoIt /\ vis' = {} /\ start' = {} /\ dup' = FALSE
 
 -----------------------------------------------------------------------------
 RInit(sz, k, v) ==
@@ -109,11 +109,12 @@ RPut(c, p, v) ==
             /\ UNCHANGED <<size, count>>
             /\ op' = [name |-> "Put", c |-> c, p |-> p, v |-> v, created |-> FALSE,
                       dks |-> DK(IF old.p # p THEN SetBag({KObj(c, old.p)}) ELSE EmptyBag),
-                      dvs |-> DV(SetBag({old.v}))]
+                      dvs |-> DV(SetBag({old.v})), grew |-> FALSE]
        ELSE LET cr == CreateNew(c, p, f.pi) IN
             /\ slots' = [cr.slots EXCEPT ![cr.idx] = [h |-> @.h, c |-> c, p |-> p, v |-> v]]
             /\ size' = cr.size /\ count' = count + 1
-            /\ op' = [name |-> "Put", c |-> c, p |-> p, v |-> v, created |-> TRUE, dks |-> EmptyBag, dvs |-> EmptyBag]
+            /\ op' = [name |-> "Put", c |-> c, p |-> p, v |-> v, created |-> TRUE, dks |-> EmptyBag, dvs |-> EmptyBag,
+                      grew |-> cr.size > size]
     /\ EndIter /\ UNCHANGED <<hash, alive, hasK, hasV>>
 
 RCreate(c, p, setv) ==
@@ -134,7 +135,7 @@ RFind(c) ==
     /\ LET f == FindEntry(c) IN
        op' = [name |-> "Find", c |-> c, ek |-> IF f.found THEN KObj(slots[f.idx].c, slots[f.idx].p) ELSE -1,
               ev |-> IF f.found THEN slots[f.idx].v ELSE -1]
-    /\ UNCHANGED <<hash, alive, hasK, hasV, size, slots, count, iter, vis, start>>
+    /\ UNCHANGED <<hash, alive, hasK, hasV, size, slots, count, iter, vis, start, dup>>
 
 RRemove(c, withOut) ==
     /\ alive
@@ -143,12 +144,13 @@ RRemove(c, withOut) ==
        IF ~f.found
        THEN /\ UNCHANGED <<slots, count>>
             /\ op' = [name |-> "Remove", c |-> c, out |-> withOut, present |-> FALSE, ok |-> -1, ov |-> -1,
-                      dks |-> EmptyBag, dvs |-> EmptyBag]
+                      dks |-> EmptyBag, dvs |-> EmptyBag, wrapped |-> FALSE]
        ELSE /\ slots' = Shift(slots, size, f.idx).slots /\ count' = count - 1
             /\ op' = [name |-> "Remove", c |-> c, out |-> withOut, present |-> TRUE,
                       ok |-> IF withOut THEN KObj(e.c, e.p) ELSE -1, ov |-> IF withOut THEN e.v ELSE -1,
                       dks |-> IF withOut THEN EmptyBag ELSE DK(SetBag({KObj(e.c, e.p)})),
-                      dvs |-> IF withOut THEN EmptyBag ELSE DV(SetBag({e.v}))]
+                      dvs |-> IF withOut THEN EmptyBag ELSE DV(SetBag({e.v})),
+                      wrapped |-> Shift(slots, size, f.idx).last < f.idx]
     /\ EndIter /\ UNCHANGED <<hash, alive, hasK, hasV, size>>
 
 (* find followed, if something was found, by remove_element on the element *)
@@ -182,8 +184,8 @@ RIterBegin ==
     /\ LET i == IterAt(slots, NextSlot(slots, 0, size), size) IN
        /\ iter' = i
        /\ op' = [name |-> "IterBegin"] @@ Shown(i)
-       /\ vis' = IF i.st = "ready" THEN <<i.elem.c>> ELSE <<>>
-       /\ start' = {slots[j].c : j \in Occupied}
+       /\ vis' = IF i.st = "ready" THEN {i.elem.c} ELSE {}
+       /\ start' = {slots[j].c : j \in Occupied} /\ dup' = FALSE
     /\ UNCHANGED <<hash, alive, hasK, hasV, size, slots, count>>
 
 RIterNext ==
@@ -191,7 +193,8 @@ RIterNext ==
     /\ LET i == IterAt(slots, NextSlot(slots, iter.slot + 1, iter.limit), iter.limit) IN
        /\ iter' = i
        /\ op' = [name |-> "IterNext"] @@ Shown(i)
-       /\ vis' = IF i.st = "ready" THEN Append(vis, i.elem.c) ELSE vis
+       /\ vis' = IF i.st = "ready" THEN vis \cup {i.elem.c} ELSE vis
+       /\ dup' = (dup \/ (i.st = "ready" /\ i.elem.c \in vis))
     /\ UNCHANGED <<hash, alive, hasK, hasV, size, slots, count, start>>
 
 RIterDelete(destroy) ==
@@ -202,8 +205,9 @@ RIterDelete(destroy) ==
                                !.slot = @ - 1, !.st = "deleted"]
        /\ op' = [name |-> "IterDelete", destroy |-> destroy,
                  dks |-> IF destroy THEN DK(SetBag({KObj(iter.elem.c, iter.elem.p)})) ELSE EmptyBag,
-                 dvs |-> IF destroy THEN DV(SetBag({iter.elem.v})) ELSE EmptyBag]
-    /\ UNCHANGED <<hash, alive, hasK, hasV, size, vis, start>>
+                 dvs |-> IF destroy THEN DV(SetBag({iter.elem.v})) ELSE EmptyBag,
+                 shrunk |-> sh.last < iter.slot \/ sh.last >= iter.limit, stepback |-> iter.slot = 0]
+    /\ UNCHANGED <<hash, alive, hasK, hasV, size, vis, start, dup>>
 
 (* aws_hash_table_foreach with a callback that answers flags[i] at its i-th invocation (CONTINUE *)
 (* when the script is exhausted)                                                                 *)
@@ -246,11 +250,10 @@ SizeInv == size \in {2, 4, 8, 16, 32, 64} /\ DOMAIN slots = 0..(size - 1)
 
 (* iterator: what the user holds is what the slot holds; a finished iteration has shown every    *)
 (* entry that was present at begin exactly once, deletions through the iterator included         *)
-NoDups(s) == \A i, j \in DOMAIN s : s[i] = s[j] => i = j
 IterElemInv == (iter.on /\ iter.st = "ready") => (iter.slot >= 0 /\ iter.slot < iter.limit /\ slots[iter.slot] = iter.elem)
 IterWindowInv == iter.on => (iter.limit <= size /\ iter.slot >= -1 /\ iter.slot <= iter.limit)
-IterNoRepeat == NoDups(vis)
-IterComplete == (iter.on /\ iter.st = "done") => {vis[i] : i \in DOMAIN vis} = start
+IterNoRepeat == ~dup
+IterComplete == (iter.on /\ iter.st = "done") => vis = start
 
 -----------------------------------------------------------------------------
 (* Refinement mapping onto HashMap (this table is table 1; table 2 never exists).  The part of   *)
